@@ -1,0 +1,62 @@
+//go:build verif
+
+package cert
+
+import (
+	"encoding/asn1"
+	"math/big"
+)
+
+// Verification hooks (build tag verif only): expose unexported tables and
+// finite-domain functions so that an external harness can tabulate them.
+
+type VerifAlgRow struct {
+	Hash    string
+	Oid     asn1.ObjectIdentifier
+	MapOid  asn1.ObjectIdentifier
+	KeyType uint
+	Err     bool
+}
+
+func VerifResolveAlg(alg SignatureAlgorithm) VerifAlgRow {
+	h, _, oid, kt, err := resolveAlg(alg)
+	return VerifAlgRow{Hash: h.String(), Oid: oid, MapOid: sigAlgOids[alg], KeyType: uint(kt), Err: err != nil}
+}
+
+type VerifKeyRow struct {
+	Known     bool
+	KeyType   uint
+	CurveName string
+	CurveOid  asn1.ObjectIdentifier
+	CurveBits int
+	OrderHex  string
+	BackName  string
+}
+
+func VerifKeyAlg(k KeyAlgorithm) VerifKeyRow {
+	kt, ok := keyTypes[k]
+	row := VerifKeyRow{Known: ok, KeyType: uint(kt)}
+	if c, ok := curves[k]; ok {
+		row.CurveName = c.Params().Name
+		row.CurveOid = curveNameOids[c.Params().Name]
+		row.CurveBits = c.Params().BitSize
+		row.OrderHex = c.Params().N.Text(16)
+		if back, err := namedCurveFromOID(row.CurveOid); err == nil {
+			row.BackName = back.Params().Name
+		}
+	}
+	return row
+}
+
+func VerifSnMax() *big.Int { return new(big.Int).Set(snMax) }
+
+func VerifMarshalGeneralName(g GeneralName) ([]byte, error) {
+	if g == nil {
+		return nil, nil
+	}
+	return g.marshal()
+}
+
+func VerifAdmissionMarshal(a Admission) ([]byte, error) { return a.marshal() }
+
+func VerifOids() (rsa, ec []int) { return oidRsaEncryption, oidEcPublicKey }
